@@ -308,4 +308,53 @@ def translateList : List Syn → List Path
   | x :: xs => translate x :: translateList xs
 end
 
+/-! ### round g — the Graph API with a path as predicate (rdflib/graph.py) -/
+
+/-- `for x in …: if x not in seen: yield x; seen.add(x)` — the `unique=True` loops of subjects / objects / subject_objects -/
+def uniq {α : Type} [DecidableEq α] : List α → List α → List α
+  | _, [] => []
+  | seen, x :: xs => if x ∈ seen then uniq seen xs else x :: uniq (x :: seen) xs
+
+/-- `Graph.triples((s, p, o))`, branch `isinstance(p, Path)`: `for _s, _o in p.eval(self, s, o): yield _s, p, _o`
+    (the middle component is the path object itself and is dropped here) -/
+def gTriples (g : Graph) (p : Path) (s o : Option Term) : List Pair := evalPath g p s o
+
+/-- `Graph.__contains__((s, p, o))`: `for triple in self.triples(triple): return True` / `return False` -/
+def gContains (g : Graph) (p : Path) (s o : Term) : Bool :=
+  match gTriples g p (some s) (some o) with
+  | [] => false
+  | _ :: _ => true
+
+/-- `Graph.objects(subject, predicate, unique)` for a single subject (or `None`) -/
+def gObjects (g : Graph) (p : Path) (s : Option Term) (unique : Bool) : List Term :=
+  if unique then uniq [] ((gTriples g p s none).map (·.2)) else (gTriples g p s none).map (·.2)
+
+/-- `Graph.subjects(predicate, object, unique)` -/
+def gSubjects (g : Graph) (p : Path) (o : Option Term) (unique : Bool) : List Term :=
+  if unique then uniq [] ((gTriples g p none o).map (·.1)) else (gTriples g p none o).map (·.1)
+
+/-- `Graph.subject_objects(predicate, unique)` -/
+def gSubjectObjects (g : Graph) (p : Path) (unique : Bool) : List Pair :=
+  if unique then uniq [] (gTriples g p none none) else gTriples g p none none
+
+/-- `Graph.objects([s₁, …], predicate, unique)`: `for subj in subject: for o in self.objects(subj, predicate, unique)` -/
+def gObjectsOfList (g : Graph) (p : Path) (ss : List Term) (unique : Bool) : List Term :=
+  ss.flatMap (fun s => gObjects g p (some s) unique)
+
+/-- `Graph.subjects(predicate, [o₁, …], unique)` -/
+def gSubjectsOfList (g : Graph) (p : Path) (os : List Term) (unique : Bool) : List Term :=
+  os.flatMap (fun o => gSubjects g p (some o) unique)
+
+/-- `Graph.value(s, path)` (`any=True`): `next(self.objects(subject, predicate))`, `default` when exhausted -/
+def gValueObj (g : Graph) (p : Path) (s : Term) : Option Term := (gObjects g p (some s) false).head?
+
+/-- `Graph.value(None, path, o)` -/
+def gValueSubj (g : Graph) (p : Path) (o : Term) : Option Term := (gSubjects g p (some o) false).head?
+
+/-- `MulPath.eval(graph, subj, obj, first)`: the public `first` flag; `first=False` skips the zero-length step on the given
+    end(s) (`if self.zero and first:`) — `_all_fwd_paths` still reports every node when both ends are free -/
+def mulEvalF (g : Graph) (ev : Ev) (m : Mod) (first : Bool) : Ev := fun s o =>
+  let z := if m.zero && first then zeroPairs s o else []
+  z ++ dedupInto z (mulRun g ev m s o).1
+
 end RV.C11
